@@ -30,6 +30,16 @@ func scriptWithout(base, marker string) string {
 }
 
 func (fc *FnCtx) addObl(name, kind, negGoal, src string) {
+	// names are unique per function: a second obligation with the same name (e.g. a second back edge of a loop) gets a suffix
+	n := 0
+	for _, p := range fc.pending {
+		if p.name == name || strings.HasPrefix(p.name, name+"~") {
+			n++
+		}
+	}
+	if n > 0 {
+		name = fmt.Sprintf("%s~%d", name, n+1)
+	}
 	fc.pending = append(fc.pending, pendingObl{name: name, kind: kind, goal: negGoal, src: src, expect: "unsat"})
 }
 
